@@ -262,6 +262,20 @@ func c14Callers(r *R) {
 	r.onlyCallers("C14.6", "channelmonitor.newMonitoredChannel", 1, "(*channelmonitor.Monitor).addChannel")
 	ac := r.fn("C14.6", "channelmonitor", "Monitor", "addChannel")
 	r.guardedCalls("C14.6", ac, false, "channelmonitor.newMonitoredChannel", 1, "+m.enabled()", "-m.channels[chid]#1")
+	if ac != nil {
+		n := 0
+		for _, pt := range r.pathsOf("C14.6", ac) {
+			if pt.End != "return" {
+				continue
+			}
+			if pt.Has("+m.channels[chid]#1") || pt.Has("-m.enabled()") {
+				n++
+				r.c.Check(pt.RetDesc(0) == "nil" && pt.Count(r.p.Is("channelmonitor.newMonitoredChannel")) == 0, "C14.6", fmt.Sprintf("addChannel/no-new-monitor#%d", n), r.p.Pos(ac.Pos()),
+					"disabled / already monitored: nothing returned", "addChannel hands out a monitored channel it did not create (the caller's failure path then shuts down the live monitor of an existing channel): "+pt.Describe())
+			}
+		}
+		r.c.Floor("C14.6", n, 2, "no-new-monitor paths of addChannel")
+	}
 	en := r.fn("C14.6", "channelmonitor", "Monitor", "enabled")
 	if en != nil {
 		ps, _ := r.p.Paths(en)
